@@ -236,6 +236,15 @@ func genOp(r *rand.Rand, m *model.Client, w opWeights, salt int) adapt.Op {
 			return adapt.Op{Kind: adapt.OpUpdateTable, Table: name, Chg: []adapt.IndexChange{{Delete: "gsi1"}}}
 		}
 	case k < w.mgmt+w.helpers:
+		if r.Intn(6) == 0 {
+			// the metrics helper: configuration of BatchWriteItem OUTPUTS only - it changes no table and it does not
+			// switch an emulated failure off (or on)
+			tbl := ""
+			if r.Intn(2) == 0 {
+				tbl = name
+			}
+			return adapt.Op{Kind: adapt.OpSetMetrics, Table: tbl}
+		}
 		switch r.Intn(3) {
 		case 0:
 			s := adapt.TableSpec{Name: name, Hash: "h"}
@@ -321,7 +330,13 @@ func genOp(r *rand.Rand, m *model.Client, w opWeights, salt int) adapt.Op {
 				hv = probe["r"]
 			}
 		}
-		return queryOp(name, index, keyCondEq(hashAttr, ":h"), nil, val.Item{":h": hv}, r.Intn(2) == 0, rrCanon)
+		q := queryOp(name, index, keyCondEq(hashAttr, ":h"), nil, val.Item{":h": hv}, r.Intn(2) == 0, rrCanon)
+		// the explicit ConsistentRead=false is the default spelled out, on the table and on any index
+		q.ConsistentFalse = r.Intn(4) == 0
+		if !q.ConsistentFalse && r.Intn(4) == 0 && (index == "" || strings.HasPrefix(index, "lsi")) {
+			q.Consistent = true
+		}
+		return q
 	case k < w.mgmt+w.helpers+w.data+w.search+w.batch:
 		// batches only name existing tables with valid, distinct keys (failing batches are C08's business)
 		existing := []string{}
